@@ -106,7 +106,12 @@ def stack(ctx, layers, ops):
                 level = LEVELS[ctx.choice("level%d" % i, len(LEVELS))]
                 name = NAMES[ctx.choice("name%d" % i, len(NAMES))]
                 owner = [None]
-                lg = logging.getLogger(name if name is not None else type(below).__qualname__)
+                top = Logger(below, name=name, level=level) if name is not None else Logger(below, level=level)
+                # without a configured name the channel is whatever the Logger reports (the property does not fix a
+                # default); nothing is emitted at construction, so the handler can be attached afterwards
+                ctx.require(isinstance(top.name, str) and (name is None or top.name == logging.getLogger(name).name),
+                            "logger name is the configured one")
+                lg = logging.getLogger(top.name)
                 expected = lg.name
                 owners.append(owner)
                 h = Capture(owner, pool, sink, owners)
@@ -116,10 +121,10 @@ def stack(ctx, layers, ops):
                 lg.propagate = False
                 lg.disabled = False
                 cleanup.append((lg, h, old))
-                top = Logger(below, name=name, level=level) if name is not None else Logger(below, level=level)
                 owner[0] = top
-                ctx.require(top.name == expected, "logger name is the configured one (default: target class name)")
                 loggers.append((top, i, level, expected))
+            if top is not below:
+                ctx.require(top.target is below, "a decorator acts on the very object it was constructed over")
         chain = []  # objects from top to pool
         node = top
         while node is not pool:
@@ -208,18 +213,26 @@ def reconfigure(ctx, nwrites):
             if record.msg is L.message:
                 sink.append(record)
 
-    default = type(pool).__qualname__
-    channels = sorted({default if n is None else n for n in names})
     cleanup = []
+    watched = set()
+
+    def watch(channel):
+        if channel in watched:
+            return
+        watched.add(channel)
+        lg = logging.getLogger(channel)
+        h = H(level=1)
+        cleanup.append((lg, h, (lg.level, lg.propagate, lg.disabled)))
+        lg.addHandler(h)
+        lg.setLevel(1)
+        lg.propagate = False
+        lg.disabled = False
+
     try:
-        for c in channels:
-            lg = logging.getLogger(c)
-            h = H(level=1)
-            cleanup.append((lg, h, (lg.level, lg.propagate, lg.disabled)))
-            lg.addHandler(h)
-            lg.setLevel(1)
-            lg.propagate = False
-            lg.disabled = False
+        for c in names:
+            if c is not None:
+                watch(c)
+        watch(L.name)
         name, level = n0, l0
         for k in range(nwrites):
             tag = "write%d: " % k
@@ -232,8 +245,10 @@ def reconfigure(ctx, nwrites):
                 L.level = level
             elif what == 3:
                 L.message = "reconfigured %(value)s / %(demand)s"
-            expected = default if name is None else name
-            ctx.require(L.name == expected, tag + "the Logger reports the configured name")
+            # without a configured name the channel is whatever the Logger reports now (no default is demanded)
+            expected = L.name if name is None else name
+            ctx.require(L.name == expected and isinstance(expected, str), tag + "the Logger reports the configured name")
+            watch(expected)
             del sink[:]
             v = ctx.num("v%d" % k)
             d0 = pool.demand
